@@ -124,10 +124,10 @@ CHECKS = {
     "C19": {
         "groups": [
             {"pkg": "Havoc/pkg/profile/yaotl/ext/dynblock", "with": ["Havoc/pkg/profile/yaotl/hclsyntax"], "entries": ["H_c19_equiv"], "shards": 8, "flags": ["-tags", "nohint", "-init", "Havoc/pkg/profile/yaotl,golang.org/x/text/unicode/norm,github.com/zclconf/go-cty/...,math/big,github.com/agext/levenshtein"]},
-            {"pkg": "Havoc/pkg/profile/yaotl/ext/dynblock", "with": ["Havoc/pkg/profile/yaotl/hclsyntax"], "entries": ["H_c19_nested_dynamic"], "flags": ["-tags", "nohint", "-init", "Havoc/pkg/profile/yaotl,golang.org/x/text/unicode/norm,github.com/zclconf/go-cty/...,math/big,github.com/agext/levenshtein"]},
+            {"pkg": "Havoc/pkg/profile/yaotl/ext/dynblock", "with": ["Havoc/pkg/profile/yaotl/hclsyntax"], "entries": ["H_c19_nested_dynamic", "H_c19_equiv_gohcl"], "flags": ["-tags", "nohint", "-init", "Havoc/pkg/profile/yaotl,golang.org/x/text/unicode/norm,github.com/zclconf/go-cty/...,math/big,github.com/agext/levenshtein"]},
         ],
-        "bounds": "one configuration schema (required string attribute a, optional number n = 2^64+1, repeated block b with string attribute c) with three arbitrary printable strings of one character (thorough: two characters) as the string values, with and without the required attribute, written five ways: plain native syntax; reordered with the three comment styles, odd spacing and a single-line block; JSON syntax; split over two files merged with MergeBodies; repeated blocks replaced by a dynamic block over the same values (dynblock.Expand). All five decode through hcldec.Decode to the same cty value (and that value is the intended one), and all five are valid exactly when the configuration is. Nested repeated blocks against a dynamic block inside a dynamic block, with the same and with different iterator names, arbitrary strings.",
-        "outside": "the gohcl decoder (reflection); other schemas (labelled blocks, maps, sets, nested dynamic blocks, collection-typed attributes); compositions of rewrites; strings needing escapes (the two syntaxes escape differently; encoding/json.Unmarshal is a model for escape-free string tokens); hclwrite formatting as a rewrite (covered for validity under C20)",
+        "bounds": "one configuration schema (required string attribute a, optional number n = 2^64+1, repeated block b with string attribute c) with three arbitrary printable strings of one character (thorough: two characters) as the string values, with and without the required attribute, written five ways: plain native syntax; reordered with the three comment styles, odd spacing and a single-line block; JSON syntax; split over two files merged with MergeBodies; repeated blocks replaced by a dynamic block over the same values (dynblock.Expand). All five decode through hcldec.Decode to the same cty value (and that value is the intended one), and all five are valid exactly when the configuration is. Nested repeated blocks against a dynamic block inside a dynamic block, with the same and with different iterator names, arbitrary strings. The same five spellings (n = 5) through gohcl.DecodeBody into a Go struct (required string, optional int, repeated blocks): same struct, valid together.",
+        "outside": "other schemas (labelled blocks, maps, sets, nested dynamic blocks, collection-typed attributes); compositions of rewrites; strings needing escapes (the two syntaxes escape differently; encoding/json.Unmarshal is a model for escape-free string tokens); hclwrite formatting as a rewrite (covered for validity under C20)",
         "min_completed": 1,
     },
     "C20": {
@@ -252,8 +252,8 @@ LEVELS = {
             "note": "Sequential histories, plus two concurrent threads (enqueue against check-in, enqueue against enqueue) under the bounded scheduler with at most two voluntary context switches; the lost update on the formerly unlocked queue was found here and repaired (fix: commit 5a580c6); witnesses run natively under the race detector."},
     "C18": {"text": "Partial: bounded symbolic execution of the real scanner, parser and evaluator (hclsyntax expression*.go with the cty operator and conversion functions) on expression and template sources whose operator, selector and literal bytes are symbolic; the value (or the presence of an error diagnostic) is compared with reference semantics transcribed from the language specification; the solver decides the comparison for every byte value in the bound.",
             "note": "Shapes are fixed (two binary operators over three operands; one selector; seven template forms); operands are concrete small numbers/booleans because cty numbers are big.Float; see bounds for what is outside."},
-    "C19": {"text": "Partial: bounded symbolic execution of the real native parser, JSON parser, body merging, dynamic-block expansion and the hcldec decoder on five spellings of one configuration whose string contents are symbolic; equality of the decoded values and of validity across the spellings is asserted and decided by the solver for every content in the bound.",
-            "note": "One schema, one configuration shape; the reflection-based gohcl decoder is outside; encoding/json.Unmarshal is a harness model for escape-free string tokens and number tokens."},
+    "C19": {"text": "Partial: bounded symbolic execution of the real native parser, JSON parser, body merging, dynamic-block expansion and both decoders (hcldec, gohcl) on five spellings of one configuration whose string contents are symbolic; equality of the decoded values and of validity across the spellings is asserted and decided by the solver for every content in the bound.",
+            "note": "One schema, one configuration shape; gohcl runs on the engine's emulation of package reflect; encoding/json.Unmarshal is a harness model for escape-free string tokens and number tokens."},
     "C20": {"text": "Bounded symbolic execution of the real hclwrite code (ParseConfig, token building and serialisation, Format, Body.SetAttributeValue/RemoveAttribute/AppendNewBlock/RemoveBlock, TokensForValue with its escaping) on top of the real scanner and parser: the input text (or the edit's value) carries symbolic bytes, the round-trip, formatter and edit statements of C20 are assertions decided for every value in the bound, and the output is re-parsed by the real hclsyntax parser inside the same run.",
             "note": "Partial: single-byte mutations of a fixed set of sources plus all short strings; one edit per run; decoding of the formatted file is outside (reflection)."},
     "C03": {"text": "Bounded symbolic execution of pkg/common/parser and the registration path against a reference encoder mirroring Package.c; all byte values for every buffer length in the bound, so every residue of trailing bytes is covered.",
